@@ -89,3 +89,25 @@ pub fn vec_to_array<const N: usize>(v: &Vec<u8>, lo: usize, hi: usize) -> (r: [u
 // derived PartialEq of std::cmp::Ordering is structural equality
 pub assume_specification [<Ordering as PartialEq>::eq] (a: &Ordering, b: &Ordering) -> (r: bool)
     ensures r == (*a == *b);
+
+// core::mem::replace (used by the R6 expansion of replace_with::replace_with_and_return)
+pub assume_specification<T> [std::mem::replace] (dest: &mut T, src: T) -> (r: T)
+    ensures r == *old(dest), *final(dest) == src;
+
+// `s.get(lo..hi)` on a byte slice (R6): Some(sub-slice) iff the range is in bounds
+#[verifier::external_body]
+pub fn slice_get_range(s: &[u8], lo: usize, hi: usize) -> (r: Option<&[u8]>)
+    ensures
+        (lo <= hi && hi <= s@.len()) ==> (r matches Some(t) && t@ == s@.subrange(lo as int, hi as int)),
+        !(lo <= hi && hi <= s@.len()) ==> r is None,
+{
+    s.get(lo..hi)
+}
+// `<[u8; N]>::try_from(s).expect(..)` (R6): panics iff the length differs
+#[verifier::external_body]
+pub fn array_from_slice<const N: usize>(s: &[u8]) -> (r: [u8; N])
+    requires s@.len() == N,
+    ensures r@ == s@,
+{
+    <[u8; N]>::try_from(s).expect("slice should be same length as array")
+}
